@@ -162,3 +162,52 @@ package keeper
 
 //@ func Keeper.sendCoinsFromModuleToAccount(ctx, recipientAddr, newCoins)
 //@   inline
+
+// Completing an order: mint, hand to the purchaser, delegate back into the escrow, book as locked.
+//@ func Keeper.MintCoinsAndLock(ctx, recipient, amount) (err)
+//@   props C02 C03 C04 C05 C14
+//@   requires 1 <= len(recipient) && len(recipient) <= 255 && ENT_BOOKS_WF(ent_store) && BANK_OK(bank_bal)
+//@   requires ENT_LEDGER(ent_store, bank_bal, bytesval(modAddr("enterprise")))
+//@   requires !isnil(amount.Amount) && 0 <= Amt(amount) && amount.Denom == entDenom(ent_store)
+//@   requires lockedAmt(ent_store, bytesval(recipient)) + Amt(amount) < P255 && totalLockedAmt(ent_store) + Amt(amount) < P255
+//@   requires bytesval(recipient) != bytesval(modAddr("enterprise"))
+//@   let a := bytesval(recipient)
+//@   let esc := bytesval(modAddr("enterprise"))
+//@   let dn := entDenom(old(ent_store))
+//@   modifies ent_store, bank_bal, bank_supply
+//@   nopanic
+//@   ensures @supply_grows_by_exactly_the_order err == nil ==> forall d string :: {bank_supply[d]} bank_supply[d] == old(bank_supply)[d] + (d == dn ? Amt(amount) : 0)
+//@   ensures @failed_mint_changes_no_supply err != nil ==> forall d string :: {bank_supply[d]} bank_supply[d] == old(bank_supply)[d] || bank_supply[d] == old(bank_supply)[d] + (d == dn ? Amt(amount) : 0)
+//@   ensures @escrow_backs_it err == nil ==> forall x `BytesV`, d string :: {balOf(bank_bal, x, d)} balOf(bank_bal, x, d) == balOf(old(bank_bal), x, d) + ((x == esc && d == dn) ? Amt(amount) : 0)
+//@   ensures @locked_credited_once err == nil ==> lockedAmt(ent_store, a) == lockedAmt(old(ent_store), a) + Amt(amount) && totalLockedAmt(ent_store) == totalLockedAmt(old(ent_store)) + Amt(amount)
+//@   ensures @only_books_touched err == nil ==> forall k `enterprise.Key` :: {ent_store[k]} k != kLocked(a) && k != kTotalLocked ==> ent_store[k] == old(ent_store)[k]
+//@   ensures @spendable_not_increased err == nil && !bankVesting(a) ==> bankSpendable(bank_bal, a, dn) == bankSpendable(old(bank_bal), a, dn)
+//@   ensures @inv err == nil ==> ENT_BOOKS_WF(ent_store) && ENT_LEDGER(ent_store, bank_bal, esc) && BANK_OK(bank_bal)
+
+// Unlocking for fees: x = fee (if locked >= fee), else all that is locked (if liquid + locked covers the fee), else nothing.
+//@ func Keeper.UnlockCoinsForFees(ctx, feePayer, feesToPay) (err)
+//@   props C04 C05
+//@   requires 1 <= len(feePayer) && len(feePayer) <= 255 && ENT_BOOKS_WF(ent_store) && BANK_OK(bank_bal)
+//@   requires ENT_LEDGER(ent_store, bank_bal, bytesval(modAddr("enterprise")))
+//@   requires coinsValid(feesToPay) && coinsAmt(feesToPay, entDenom(ent_store)) > 0 && coinsAmt(feesToPay, entDenom(ent_store)) < P255
+//@   requires lockedAmt(ent_store, bytesval(feePayer)) > 0
+//@   requires spentAmt(ent_store, bytesval(feePayer)) + lockedAmt(ent_store, bytesval(feePayer)) < P255 && totalSpentAmt(ent_store) + lockedAmt(ent_store, bytesval(feePayer)) < P255
+//@   requires bytesval(feePayer) != bytesval(modAddr("enterprise"))
+//@   let p := bytesval(feePayer)
+//@   let esc := bytesval(modAddr("enterprise"))
+//@   let dn := entDenom(old(ent_store))
+//@   let L := lockedAmt(old(ent_store), bytesval(feePayer))
+//@   let F := coinsAmt(feesToPay, entDenom(old(ent_store)))
+//@   let x := (L >= F) ? F : ((bankSpendable(old(bank_bal), bytesval(feePayer), entDenom(old(ent_store))) + L >= F) ? L : 0)
+//@   modifies ent_store, bank_bal
+//@   nopanic
+//@   ensures @unlock_rule err == nil ==> lockedAmt(ent_store, p) == L - x && spentAmt(ent_store, p) == spentAmt(old(ent_store), p) + x
+//@   ensures @totals err == nil ==> totalLockedAmt(ent_store) == totalLockedAmt(old(ent_store)) - x && totalSpentAmt(ent_store) == totalSpentAmt(old(ent_store)) + x
+//@   ensures @escrow_releases_exactly_that err == nil ==> balOf(bank_bal, esc, dn) == balOf(old(bank_bal), esc, dn) - x && balOf(bank_bal, p, dn) == balOf(old(bank_bal), p, dn) + x
+//@   ensures @others_books_untouched err == nil ==> forall k `enterprise.Key` :: {ent_store[k]} k != kLocked(p) && k != kSpent(p) && k != kTotalLocked && k != kTotalSpent ==> ent_store[k] == old(ent_store)[k]
+//@   ensures @inv err == nil ==> ENT_BOOKS_WF(ent_store) && ENT_LEDGER(ent_store, bank_bal, esc) && BANK_OK(bank_bal)
+
+// logging has no effect on module state
+//@ func Keeper.Logger(ctx) (l)
+//@   trusted the logger handle is not modelled; the method only derives a logger from the context
+//@   pure
